@@ -167,21 +167,43 @@ func (w *World) VerifyFunc(lc *LoadedContract, opts VerifyOpts) (res *FuncResult
 				}
 			}
 		}
-		specArgs1 := append(append([]Val(nil), params...), vals...)
-		for i, v := range vals {
-			if v.T != nil {
-				ex.values = append(ex.values, NamedTerm{fmt.Sprintf("result%d", i), v.T})
-			}
+		// Postconditions are proved per return point (no merged heaps/results in
+		// the query) when there are few of them, otherwise on the merged exit.
+		type exitPoint struct {
+			st   *State
+			vals []Val
+			sfx  string
 		}
-		for _, cl := range ex.evalSpec(lc.Spec, specArgs1) {
-			if cl.Kind == "ensures" {
-				ex.assert(exit, "post", cl.Name, cl.Tags, ex.inst(Implies(cl.PC, cl.Cond), fr.pre, exit), w.prog.Fset.Position(fn.Pos()))
+		var exits []exitPoint
+		if len(fr.rets) > 1 && len(fr.rets) <= 8 {
+			for k, rp := range fr.rets {
+				for _, rl := range ex.relyTouched {
+					fr.envStep(rp.st, rl.comp, rl.cs, rl.recv, rl.vt, rl.rely)
+				}
+				exits = append(exits, exitPoint{rp.st, rp.vals, fmt.Sprintf("@ret%d", k+1)})
 			}
-			if cl.Kind == "canary" {
-				// expected to fail (recorded finding); evaluated on a copy so that it is not assumed
-				cs := exit.clone()
-				ex.assertCanary(cs, "canary", cl.Name, cl.Tags, ex.inst(Implies(cl.PC, cl.Cond), fr.pre, exit), w.prog.Fset.Position(fn.Pos()))
-				ex.assumes = ex.assumes[:len(ex.assumes)-1]
+		} else {
+			exits = append(exits, exitPoint{exit, vals, ""})
+		}
+		baseValues := ex.values
+		for _, xp := range exits {
+			specArgs1 := append(append([]Val(nil), params...), xp.vals...)
+			ex.values = append([]NamedTerm(nil), baseValues...)
+			for i, v := range xp.vals {
+				if v.T != nil {
+					ex.values = append(ex.values, NamedTerm{fmt.Sprintf("result%d", i), v.T})
+				}
+			}
+			for _, cl := range ex.evalSpec(lc.Spec, specArgs1) {
+				if cl.Kind == "ensures" {
+					ex.assert(xp.st, "post", cl.Name+xp.sfx, cl.Tags, ex.inst(Implies(cl.PC, cl.Cond), fr.pre, xp.st), w.prog.Fset.Position(fn.Pos()))
+				}
+				if cl.Kind == "canary" {
+					// expected to fail (recorded finding); evaluated on a copy so that it is not assumed
+					cs := xp.st.clone()
+					ex.assertCanary(cs, "canary", cl.Name+xp.sfx, cl.Tags, ex.inst(Implies(cl.PC, cl.Cond), fr.pre, xp.st), w.prog.Fset.Position(fn.Pos()))
+					ex.assumes = ex.assumes[:len(ex.assumes)-1]
+				}
 			}
 		}
 	} else {
